@@ -787,6 +787,13 @@ func (engine) Run(src *sim.Src, log *sim.Log, res *sim.Result) {
 		}
 		ctxA, recA := mk()
 		ctxB, recB := mk()
+		if src.Chance(1, 2) && ref.ticks > 0 {
+			// A's own context is cancelled somewhere along the way (possibly while it is
+			// descheduled): A may then return its context's error; B must not notice
+			ctxA = newSimCtx(errKind(src.Draw(3)), src.Draw(ref.ticks))
+			ctxA.rec = recA
+			recA.ctx = ctxA
+		}
 		recA.yieldAt = src.Draw(ref.n)
 		var valB, pncB string
 		var errB error
@@ -798,6 +805,10 @@ func (engine) Run(src *sim.Src, log *sim.Log, res *sim.Result) {
 		valA, errA, pncA := safeParse(t, ctxA, input, recA)
 		res.Steps += ctxA.nticks + ctxB.nticks
 		sameA := pncA == "" && recA.diverged < 0 && recA.n == ref.n && valA == ref.val && sameErr(errA, ref.err)
+		if pncA == "" && errA != nil && ctxA.fired && ctxA.err != nil && errors.Is(errA, ctxA.err) {
+			sameA = true // A was cancelled and said so
+			res.Probe("two-callers:descheduled-caller-cancelled")
+		}
 		sameB := !ranB || pncB == "" && recB.diverged < 0 && recB.n == ref.n && valB == ref.val && sameErr(errB, ref.err)
 		log.Printf("two callers: A descheduled at event %d of %d, B ran=%v; A -> err=%s panic=%q events=%d diverged=%d same=%v; B -> err=%s panic=%q events=%d diverged=%d same=%v",
 			recA.yieldAt, ref.n, ranB, errString(errA), pncA, recA.n, recA.diverged, sameA, errString(errB), pncB, recB.n, recB.diverged, sameB)
